@@ -64,6 +64,8 @@ def build(case):
         p.lb, p.ub, p.x0 = lb, ub, x0
         kw["x0"] = x0.copy()
         kw["bounds"] = p.bounds
+        if desc["features"].get("bounds_spelling") == "pairs":
+            kw["bounds"] = [(float(l) if np.isfinite(l) else None, float(u) if np.isfinite(u) else None) for l, u in zip(p.lb, p.ub)]
     return kw, desc, p
 
 
@@ -74,6 +76,11 @@ def evaluate(case: Dict[str, Any]) -> Dict[str, Any]:
     out: Dict[str, Any] = {"corr": [], "skipped": None, "tags": [], "prop": []}
     kw, desc, p = build(case)
     run = Run(kw).execute()
+    if np.isfinite(np.asarray(kw["x0"], dtype=float)).all() and run.nonfinite_points():
+        return {"corr": None, "skipped": None, "tags": ["nonfinite-point"],
+                "prop": [{"what": "the solver evaluates the objective at / returns a point with NaN or infinite coordinates although the start is "
+                                  "finite and the objective is finite on the box (no KKT point is reached)", "key": "",
+                          "detail": {"bounds_spelling": desc["features"].get("bounds_spelling"), "message": None if run.result is None else run.result.message}}]}
     if run.nonfinite():
         return {"corr": None, "skipped": None, "tags": ["nonfinite-objective-domain"], "prop": []}
     if run.exc is not None:
